@@ -163,6 +163,8 @@ def e2e_monitor(case, il, sl):
         return ("after the transport drained the publishers did not all finish: %s" % dr, "c18-no-resume")
     if "late-channel" in d and not d["late-channel"].endswith("ok"):
         return ("a channel opened while throttled did not work: %s" % d["late-channel"], "c18-late-channel")
+    if "idle-close-ok" in d and not d["idle-close-ok"].endswith(" t"):
+        return ("the server closed an idle channel in the moment the stall ended: the client's CloseOk never reached the wire (%s)" % dr, "c18-appended-not-written")
     w = d.get("wire", "")
     if "ok=t" not in w:
         return ("messages on the wire are not exactly what was published, once and in order: %s" % w, "c18-loss")
@@ -171,6 +173,7 @@ def e2e_monitor(case, il, sl):
 
 def gen_e2e(tier, seed):
     rng = Rng(seed + 1818)
+    extra = ["run 2 20000 0 2 150 1000 1200 f release=all srvclose=1", "run 4 262144 0 1 400 8192 1000 f release=all srvclose=1"]
     cfgs = [(0, 1000, 0, 2, 60, 100, 1200, "f"), (1, 1000, 0, 2, 120, 300, 1200, "t"), (2, 20000, 10000, 3, 150, 1000, 1200, "t"), (16, 65536, 0, 4, 200, 800, 1500, "f")]
     if tier != "quick":
         for _ in range(12):
@@ -178,6 +181,9 @@ def gen_e2e(tier, seed):
             cfgs.append((rng.choice([1, 2, 16]), high, rng.choice([0, high // 2]), rng.randint(1, 8), rng.randint(50, 300), rng.choice([100, 1000, 5000]), rng.choice([1200, 2000]), rng.choice("tf")))
     cases = [Case("e%d" % i, ["run %d %d %d %d %d %d %d %s" % c], {"keep_prefix": 0}) for i, c in enumerate(cfgs)]
     cases += wire_cases(tier)
+    # throttled publishers; the transport then takes the whole backlog at once and, in the same
+    # moment, the server closes an idle channel (its CloseOk is appended during the flush)
+    cases += [Case("x%d" % i, [c], {"keep_prefix": 0}) for i, c in enumerate(extra)]
     return cases
 
 
